@@ -59,7 +59,10 @@ CFG = dict(
                "(Sterbenz: within a factor 2); and witnesses that WITHOUT exactness 'in [vi, vj]' is false at fraction = 1, reachable through vquantile itself (50 elements, q = fl(1/49): linear above higher by 2^-53). "
                "Still partial: the upper bound for fraction < 1 without exactness, fraction in [0,1] as computed by the code, "
                "average ranks at a generic ordered carrier (proved at option R), which arrangement the selection picks on ties. "
-               "The model is tied to the code by the differential run described in the rule.",
+               "The model is tied to the code by the differential run described in the rule. "
+               "Second, static tie (translator): the interpolation-method tables of vquantile (final match and the early returns of the descending branch: which of vi / vj / midpoint / linear each arm returns), its branch test, comparators and count guards, and the counting closure and kind table of vpercentile_of are re-extracted from the Rust source text on every run and Proofs/SrcTablesAgg.v re-proves, for every q / method / score / series, that Model/Quantile.v uses exactly those (src_vquantile_conforms, src_vpercentile_of_conforms).",
+    src_tables=True,   # tools/gen_tables.py + Proofs/SrcTablesAgg.v: decision tables regenerated from the Rust source on every run
+    src_tables_proofs=["Proofs/SrcTablesAgg.vo"],
     level_note="Trusted: Coq kernel + Reals axioms for the theorems stated over option R; for the binary64 theorems "
                "additionally the standard library's specification of the primitive float operations (Floats/FloatAxioms.v: "
                "Prim2SF_valid, SF2Prim_Prim2SF, Prim2SF_SF2Prim, mul_spec, sub_spec, opp_spec, abs_spec, of_uint63_spec, "
